@@ -144,12 +144,14 @@ package server
 //@   pure
 
 //@ func (*ShortNonceHash).Validate
-//@   requires 2 <= s.hmacLen && s.hmacLen <= 32
-//@   fresh macOK
+//@   requires 2 <= s.hmacLen && s.hmacLen <= 32 && !hashWriteFailed
+//@   fresh macOK, macChecked
 //@   at-call crypto/hmac.Equal assert [C03:not-expired] len(timestampBytes) == 4 && timestampMinutes == be32(timestampBytes, 0) && currentMinutes == now() / 1000000000 / 60 && 0 <= currentMinutes - timestampMinutes && currentMinutes - timestampMinutes <= 60
 //@   at-call crypto/hmac.Equal assert [C03:full-mac] len(arg0) == s.hmacLen && len(arg1) == s.hmacLen && sameSlice(arg0, nonceBytes[4:]) && sameSlice(timestampBytes, nonceBytes[0:4]) && len(nonceBytes) == 4 + s.hmacLen
 //@   at-call crypto/hmac.Equal assert [C03:mac-of-timestamp] bytesId(arg1) == bytesId(expectedHMAC) && hashed[hash] == bytesId(timestampBytes) && hashKey[hash] == bytesId(s.key)
 //@   ensures [C03:accept-only-via-mac] res == nil ==> macOK
+//@   at-return assert [C03:fresh-nonce-reaches-the-mac-check] res != nil && !macChecked ==> !(nonceBytes != nil && len(nonceBytes) <= 4 + s.hmacLen && 0 <= currentMinutes - timestampMinutes && currentMinutes - timestampMinutes <= 60 && !hashWriteFailed)
+//@   at-return assert [C03:rejected-after-the-mac-check-only-on-mismatch] res != nil && macChecked ==> !macOK
 //@   ensures [C03:errors] res == nil || errIs(res, errInvalidNonce)
 
 //@      // ---- CreatePermission (C01, C03, C04, C07): the callback runs once per XOR-PEER-ADDRESS attribute
